@@ -72,10 +72,17 @@ class expr(object):
         self.em = em
         
     def bin_expr(self, op, rhs):
-        to_expr(rhs)
+        rhs_x = to_expr(rhs)
 
-        rhs_e = pop_expr()
-        lhs_e = pop_expr()
+        # Both operands are on the expression stack. Python evaluates a 
+        # reflected comparison first when the right-hand operand's type is 
+        # a subclass of the left-hand one (expr vs expr_subscript), in 
+        # which case 'self' is the most-recent entry. Identify the 
+        # operands by object, not by stack position
+        pop_expr()
+        pop_expr()
+        rhs_e = rhs_x.em
+        lhs_e = self.em
        
         e = ExprBinModel(lhs_e, op, rhs_e)
         if in_srcinfo_mode():
